@@ -323,6 +323,26 @@ static void spin_random(uint64_t n) {
 	}
 }
 
+// ---- locks with static storage duration that are taken while other namespace-scope objects are still being constructed
+// (a kernel's global locks): both spinlocks have constexpr constructors, so they are constant-initialised and a lock taken by the
+// constructor of an *earlier* global is still held when main() starts.
+extern frg::ticket_spinlock g_early_ticket, g_early_ticket_free;
+extern frg::simple_spinlock g_early_simple, g_early_simple_free;
+static struct EarlyLocker { EarlyLocker() { g_early_ticket.lock(); g_early_simple.lock(); g_early_ticket_free.lock(); g_early_ticket_free.unlock(); g_early_simple_free.lock(); g_early_simple_free.unlock(); } } g_early_locker;
+frg::ticket_spinlock g_early_ticket, g_early_ticket_free;
+frg::simple_spinlock g_early_simple, g_early_simple_free;
+static void static_init_case() {
+	begin_case("static-init", 0);
+	if(!g_early_ticket.is_locked()) violation("C12:static-init:ticket_spinlock", "a namespace-scope ticket_spinlock locked by the constructor of an earlier global is not locked when main() starts");
+	else { g_early_ticket.unlock(); if(g_early_ticket.is_locked()) violation("C12:static-init:ticket_spinlock", "unlock() of a lock taken during static initialisation does not release it"); g_early_ticket.lock(); g_early_ticket.unlock(); }
+	if(!g_early_simple.is_locked()) violation("C12:static-init:simple_spinlock", "a namespace-scope simple_spinlock locked by the constructor of an earlier global is not locked when main() starts");
+	else { g_early_simple.unlock(); if(g_early_simple.is_locked()) violation("C12:static-init:simple_spinlock", "unlock() of a lock taken during static initialisation does not release it"); g_early_simple.lock(); g_early_simple.unlock(); }
+	if(g_early_ticket_free.is_locked() || g_early_simple_free.is_locked()) violation("C12:static-init:released", "a lock taken and released during static initialisation is held when main() starts");
+	g_early_ticket_free.lock(); g_early_ticket_free.unlock(); // (a ticket counter reset behind a served ticket would hang here: watchdog)
+	count("spinlocks_used_during_static_initialisation", 4);
+	note_distinct(mix(0xE1, 1));
+}
+
 int main(int argc, char **argv) {
 	parse_args(argc, argv, "c12_locks");
 	rec.rule = "guards: a case is one admissible operation sequence over two guards and two instrumented mutexes (model of ownership vs. the mutex call log after every operation); "
@@ -332,6 +352,7 @@ int main(int argc, char **argv) {
 	guard_sequences<frg::unique_lock<LogMutex>>(t ? 5 : 4, scaled(2000, 50000));
 	guard_sequences<frg::shared_lock<LogMutex>>(t ? 5 : 4, scaled(2000, 50000));
 	guard_helpers();
+	if(want_mode("static-init") && want_case(0)) static_init_case();
 	spin_dfs<frg::ticket_spinlock>("2x2", 2, 2, t ? 4 : 3, t ? 400000 : 60000);
 	spin_dfs<frg::ticket_spinlock>("3x1", 3, 1, 2, t ? 400000 : 60000);
 	spin_dfs<frg::ticket_spinlock>("2x2@wrap", 2, 2, t ? 4 : 3, t ? 400000 : 60000, 0xFFFFFFFEu); // tickets 0xFFFFFFFE, 0xFFFFFFFF, 0, 1
